@@ -51,7 +51,7 @@ def parts(tier):
 def plan(tier, seed):
     Ls, Rs, Os = parts(tier)
     cases = [{'L': L, 'sizes': s} for L in Ls for s in ('222', '234') if tier == 'thorough' or s == '222' or '...' not in L]
-    tree = [{'tree': sub, 'extra': e} for e in ([2], [2, 3], [2, 1, 2]) for sub in ('ij,j->i', 'ij...,j...->i...', '...ij,...j->...i', 'ikj,kj->ki', 'hij...,hj...->hi...'.replace('h', 'k'), 'ji,j->i', 'kij,kj->ki')]
+    tree = [{'tree': sub, 'extra': e} for e in ([2], [2, 3], [2, 1, 2]) for sub in ('ij,j->i', 'ij...,j...->i...', '...ij,...j->...i', 'ikj,kj->ki', 'hij...,hj...->hi...'.replace('h', 'k'), 'ji,j->i', 'kij,kj->ki', 'i j, j -> i', 'k i j, k j -> k i', ' ij , j->i ', 'i j ..., j ... -> i ...')]
     return [
         {'name': 'strings', 'target': TARGET, 'x64': False, 'cases': cases, 'chunk': 1, 'ctx': {'nR': len(Rs), 'nO': len(Os)}},
         {'name': 'trees', 'target': TARGET, 'x64': False, 'cases': tree, 'chunk': 1},
@@ -99,7 +99,7 @@ def run(phase, cases, ctx):
     if phase == 'trees':
         for case in cases:
             sub = case['tree']
-            L, rest = sub.split(',')
+            L, rest = sub.replace(' ', '').split(',')
             R, O = rest.split('->')
             sizes = {'i': 2, 'j': 3, 'k': 2}
             extra = tuple(case.get('extra', [2]))
